@@ -35,20 +35,22 @@ class C03(Prop):
     def real(self, case):
         a = case["args"]
         f = FORMATS[a["kind"]]
-        obj = f.build(a)
+        obj = f.new()
+        mc.apply_compose(obj, a["compose"])
+        steps = mc.run_trace(obj, f.mapping, f.add, a["ops"])
         before = f.snap(obj)
         try:
             t1 = obj.dumps()
         except Exception as e:  # noqa
-            return {"state": before["payload"], "out": {"err": type(e).__name__}}
+            return {"state": before["payload"], "steps": steps, "out": {"err": type(e).__name__}}
         try:
             obj2 = f.new()
             obj2.loads(t1)
             after = f.snap(obj2)
             t2 = obj2.dumps()
         except Exception as e:  # noqa
-            return {"state": before["payload"], "before": before, "text1": t1, "out": {"err": type(e).__name__}}
-        return {"state": before["payload"], "before": before, "out": {"ok": {"text1": t1, "reloaded": after, "text2": t2}}}
+            return {"state": before["payload"], "steps": steps, "before": before, "text1": t1, "out": {"err": type(e).__name__}}
+        return {"state": before["payload"], "steps": steps, "before": before, "out": {"ok": {"text1": t1, "reloaded": after, "text2": t2}}}
 
     def model_requests(self, case):
         a = case["args"]
@@ -65,6 +67,15 @@ class C03(Prop):
 
     def oracle(self, case, real_out):
         out = real_out["out"]
+        # "every RPM under its source package with its path, signing key and category; ...": the built mapping against the calls
+        f = FORMATS[case["args"]["kind"]]
+        prev = {}
+        for i, (op, st) in enumerate(zip(case["args"]["ops"], real_out["steps"])):
+            bad = f.oracle_step(prev, st["state"], op, st["out"])
+            if bad is not None and bad["kind"] in ("frame-or-content", "wrong-key", "refusal-changed-state"):
+                return {"kind": "built-mapping-differs-from-calls", "required": bad["required"],
+                        "observed": {"step": i, "call": dict((k, v) for k, v in op.items() if k != "expect"), "detail": bad["observed"]}}
+            prev = st["state"]
         if "err" in out:
             return {"kind": "cycle-raised", "observed": out["err"] + (" on loads/second dumps" if "text1" in real_out else " on dumps"),
                     "required": "a manifest built through add calls is written and read back"}
